@@ -365,7 +365,7 @@ def delivery_grid(run):
 # operators that hand on every element they receive (after an endless uninstrumented group nothing else is generated:
 # a filter that never matches would spin without touching the instrumented source, which no pull cap can stop)
 PASS_THROUGH = ("select", "enumerate", "skip", "take", "slice", "insert", "insertMany", "memorize", "accumulate", "zip",
-                "selectMany", "append", "concat", "plus", "replace", "replaceMany")
+                "selectMany", "append", "concat", "plus")
 
 
 def gen_group(rng):
